@@ -26,6 +26,10 @@ pub enum Fault {
     /// the k-th run of ASCII digits is replaced by a boundary number
     DigitRun { index: usize, text: String },
     JunkPrefix { data: Vec<u8> },
+    /// token-aligned overwrite: the k-th hexadecimal string token `<..>` is replaced
+    HexToken { index: usize, text: String },
+    /// token-aligned overwrite: the k-th name token `/..` is replaced
+    NameToken { index: usize, text: String },
 }
 
 const SECTOR: usize = 512;
@@ -42,6 +46,8 @@ impl Fault {
             Fault::Splice { .. } => "splice",
             Fault::DigitRun { .. } => "digitrun",
             Fault::JunkPrefix { .. } => "junk_prefix",
+            Fault::HexToken { .. } => "hex_token",
+            Fault::NameToken { .. } => "name_token",
         }
     }
     pub fn apply(&self, b: &mut Vec<u8>) -> bool {
@@ -124,12 +130,68 @@ impl Fault {
                 }
                 let (s, e) = runs[index % runs.len()];
                 b.splice(s..e, text.bytes());
+                let _ = e;
                 true
             }
             Fault::JunkPrefix { data } => {
                 let mut n = data.clone();
                 n.extend_from_slice(b);
                 *b = n;
+                true
+            }
+            Fault::HexToken { index, text } => {
+                let mut toks = vec![];
+                let mut i = 0;
+                while i + 1 < b.len() {
+                    if b[i] == b'<' && b[i + 1] != b'<' && (i == 0 || b[i - 1] != b'<') {
+                        if let Some(e) = b[i..].iter().take(200).position(|&c| c == b'>') {
+                            if b[i + 1..i + e].iter().all(|c| c.is_ascii_hexdigit() || c.is_ascii_whitespace()) {
+                                toks.push((i, i + e + 1));
+                                i += e;
+                            }
+                        }
+                    }
+                    i += 1;
+                }
+                if toks.is_empty() {
+                    return false;
+                }
+                let (s, e) = toks[index % toks.len()];
+                // keep the length where possible (white space after the token), so that offsets and
+                // stream lengths around it stay valid and the overwritten token is actually reached
+                let mut t = text.clone().into_bytes();
+                while t.len() < e - s {
+                    t.push(b' ');
+                }
+                b.splice(s..e, t);
+                true
+            }
+            Fault::NameToken { index, text } => {
+                let mut toks = vec![];
+                let mut i = 0;
+                while i < b.len() {
+                    if b[i] == b'/' {
+                        let s = i;
+                        i += 1;
+                        while i < b.len() && !b" \t\r\n\x0c\x00/<>[](){}%".contains(&b[i]) {
+                            i += 1;
+                        }
+                        if i - s > 1 && i - s < 40 {
+                            toks.push((s, i));
+                        }
+                    } else {
+                        i += 1;
+                    }
+                }
+                if toks.is_empty() {
+                    return false;
+                }
+                let (s, e) = toks[index % toks.len()];
+                let mut t = text.clone().into_bytes();
+                while t.len() < e - s {
+                    t.push(b' ');
+                }
+                b.splice(s..e, t);
                 true
             }
         }
@@ -145,6 +207,8 @@ impl Fault {
             Fault::Splice { pos, data } => json!({"kind": "splice", "pos": pos, "data": hex(data)}),
             Fault::DigitRun { index, text } => json!({"kind": "digitrun", "index": index, "text": text}),
             Fault::JunkPrefix { data } => json!({"kind": "junk_prefix", "data": hex(data)}),
+            Fault::HexToken { index, text } => json!({"kind": "hex_token", "index": index, "text": text}),
+            Fault::NameToken { index, text } => json!({"kind": "name_token", "index": index, "text": text}),
         }
     }
     pub fn from_json(j: &J) -> Option<Fault> {
@@ -159,6 +223,8 @@ impl Fault {
             "splice" => Fault::Splice { pos: u("pos")?, data: unhex(j.get("data")?.as_str()?)? },
             "digitrun" => Fault::DigitRun { index: u("index")?, text: j.get("text")?.as_str()?.to_string() },
             "junk_prefix" => Fault::JunkPrefix { data: unhex(j.get("data")?.as_str()?)? },
+            "hex_token" => Fault::HexToken { index: u("index")?, text: j.get("text")?.as_str()?.to_string() },
+            "name_token" => Fault::NameToken { index: u("index")?, text: j.get("text")?.as_str()?.to_string() },
             _ => return None,
         })
     }
@@ -280,7 +346,9 @@ impl C01 {
     fn random_fault(&self, rng: &mut Rng, doc: &Doc) -> Fault {
         let n = doc.bytes.len().max(1);
         let sectors = (n + SECTOR - 1) / SECTOR;
-        match rng.below(16) {
+        match rng.below(19) {
+            16 | 17 => Fault::HexToken { index: rng.usize(4096), text: rng.pick(&["<>", "<0>", "<FFFFFFFFFF>", "<00>", "< >", "<0000", "<D800>", "<FFFF>"]).to_string() },
+            18 => Fault::NameToken { index: rng.usize(4096), text: rng.pick(&["/", "/#", "/A#4", "/Identity", "/Type", "/#00", "/DeviceN", "/Pattern", "/Indexed"]).to_string() },
             0..=3 => Fault::BitFlip { pos: rng.usize(n), bit: rng.below(8) as u8 },
             4..=6 => Fault::ByteSet { pos: rng.usize(n), val: *rng.pick(&[0u8, 0xff, b' ', b'0', b'9', b'<', b'>', b'[', b'(', b'/', b'R', b'-', b'\n']) },
             7 | 8 => Fault::Truncate { len: if rng.coin() { rng.usize(n) } else { n - 1 - rng.usize(n.min(64)) } },
@@ -345,7 +413,7 @@ impl Check for C01 {
         CheckInfo {
             id: "C01",
             level: "fault_enumeration",
-            rule: "one case = a valid stored document (corpus incl. encrypted files opened with their passwords, and generated documents) + a sequence of at-rest storage faults applied before open (bit flip, byte set, truncation/EOF anywhere, 512-byte sector zeroed / duplicated / swapped, splice from another stored file, digit run replaced by a boundary number, junk prefix) + {strict, tolerant} x {cached, uncached} x {2 MiB, 8 MiB stack}; the walker makes every read call (load, pages and inherited attributes, resources, fonts with widths / ToUnicode / embedded data, images raw and decoded, forms, content operators, functions and colour spaces, name and number trees, outlines, every object below /Size raw and typed, recovery scan), each under catch_unwind, under allocation / work meters, in a worker process whose death is observed. Enumerated part: every truncation point (quick: 3 small documents; thorough: all documents <= 4 KiB) and every single-bit flip (thorough). Non-trivial = the fault changed the outcome (Ok/Err pattern of the calls) relative to the unfaulted document; distinct = hash of (document, faults, configuration)",
+            rule: "one case = a valid stored document (corpus incl. encrypted files opened with their passwords, and generated documents) + a sequence of at-rest storage faults applied before open (bit flip, byte set, truncation/EOF anywhere, 512-byte sector zeroed / duplicated / swapped, splice from another stored file, digit run replaced by a boundary number, junk prefix, token-aligned overwrite of a hexadecimal string or name token) + {strict, tolerant} x {cached, uncached} x {2 MiB, 8 MiB stack}; the walker makes every read call (load, pages and inherited attributes, resources, fonts with widths / ToUnicode / embedded data, images raw and decoded, forms, content operators, functions and colour spaces, name and number trees, outlines, every object below /Size raw and typed, recovery scan), each under catch_unwind, under allocation / work meters, in a worker process whose death is observed. Enumerated part: every truncation point (quick: 3 small documents; thorough: all documents <= 4 KiB) and every single-bit flip (thorough). Non-trivial = the fault changed the outcome (Ok/Err pattern of the calls) relative to the unfaulted document; distinct = hash of (document, faults, configuration)",
             assumptions: vec![
                 "covers 'valid file + storage faults', not all byte strings and not texts produced by a PDF grammar (the other half of the property's quantifier)".into(),
                 "resource bound: peak live bytes <= 64 MiB + 64 x (input + bytes produced by stream filters), allocation calls <= 2e6 + 2000 x the same, single request <= 256 MiB and live bytes <= 512 MiB (hard caps: the request is refused, the process aborts, the supervisor observes it), log events <= 1e6 + 1000 x input, 20 s wall clock per case as backstop".into(),
@@ -355,7 +423,7 @@ impl Check for C01 {
             components_real: vec!["pdf crate (all of it, incl. decryption and all stream filters)", "globalcache SyncCache", "process allocator (metered) and thread stacks of the stated sizes"],
             components_stub: vec![],
             per_run_timeout_s: 20,
-            required_probes: vec!["fault_bitflip", "fault_truncate", "fault_sector_zero", "fault_sector_dup", "fault_sector_swap", "fault_splice", "fault_digitrun", "fault_junk_prefix", "fault_byteset", "outcome_changed"],
+            required_probes: vec!["fault_bitflip", "fault_truncate", "fault_sector_zero", "fault_sector_dup", "fault_sector_swap", "fault_splice", "fault_digitrun", "fault_junk_prefix", "fault_byteset", "fault_hex_token", "fault_name_token", "outcome_changed"],
             exhaustive: false,
         }
     }
